@@ -47,8 +47,8 @@ CLASSES: dict = {
     "int_giant": (10**4400, lambda r: 10 ** r.range(4301, 6000) + r.below(1000)),  # str(int) exceeds the digit limit
     # floats
     "float_zero": (0.0, lambda r: 0.0),
-    "float_pos": (1.5, lambda r: r.range(1, 100000) / 8 + 0.0625),
-    "float_neg": (-2.25, lambda r: -(r.range(1, 100000) / 8 + 0.0625)),
+    "float_pos": (1.5, lambda r: r.range(8, 100000) / 8 + 0.0625),  # >= 1: int() lands in int_pos
+    "float_neg": (-2.25, lambda r: -(r.range(8, 100000) / 8 + 0.0625)),
     "float_inf": (float("inf"), lambda r: float("inf")),
     "float_ninf": (float("-inf"), lambda r: float("-inf")),
     "float_nan": (float("nan"), lambda r: float("nan")),
@@ -62,7 +62,7 @@ CLASSES: dict = {
     "str_float": ("3.5", lambda r: f"{r.range(1, 999)}.{r.range(1, 9)}5"),
     "str_exp": ("1e999", lambda r: f"{r.range(1, 9)}e{r.range(400, 5000)}"),  # float() -> inf, Decimal finite
     "str_nan": ("nan", lambda r: r.choice(["nan", "NaN", "-nan", "NAN"])),
-    "str_inf": ("inf", lambda r: r.choice(["inf", "Infinity", "-inf", "INF", "-Infinity"])),
+    "str_inf": ("inf", lambda r: r.choice(["inf", "Infinity", "+inf", "INF", "iNfinity"])),  # float() -> +inf
     "str_pct": ("100%", lambda r: f"{r.range(1, 100)}% {_other_word(r)}"),  # a stray % (not a valid conversion)
     "str_fmt_d": ("%(x)d", lambda r: f"{_other_word(r)} %({r.choice(['x', 'you', 'n'])})d"),  # %-format needing a number
     "str_fmt_s": ("hello %(you)s", lambda r: f"{_other_word(r)} %({r.choice(['x', 'you', 'n'])})s"),
@@ -70,6 +70,7 @@ CLASSES: dict = {
     "str_b64_nonutf8": ("/w==", None),  # valid base64 of bytes that are not UTF-8
     "str_nonascii": ("\u00fcn\u00ef", lambda r: _other_word(r) + r.choice(["\u00fc", "\u00e9", "\u4e2d", "\U0001f600"])),  # encodable, not ASCII
     "str_surrogate": ("\ud800", lambda r: _other_word(r)[: r.below(4)] + r.choice(["\ud800", "\udfff", "\udc80"])),  # lone surrogate: not encodable as UTF-8
+    "str_key": ("k", lambda r: "k"),  # the key every dict of list_dict / dict has (and one item of list_dict_gap lacks)
     "str_other": ("hello", _other_word),  # letters, len = 1 mod 4: never a number, date, or base64
     # containers
     "list_empty": ([], lambda r: []),
